@@ -586,6 +586,50 @@ def r12_8(ctx):
 
 
 
+def r12_9(ctx):
+    """`t.cancel(); await t` re-raises the CancelledError of `t` in the awaiting coroutine (a task that handles its
+    cancellation by `raise`, as the management tasks do, ends cancelled).  Where the await is not inside a try that catches
+    it, everything after it is skipped: IMAPUserServer.shutdown() awaited its management task that way first thing - a shutdown
+    with the task still running (run() cancelled: SIGINT, a test harness, the parent) closed no client, shut down no mailbox,
+    committed and closed no database.  Every await of a task the same function has just cancelled sits in a try with a
+    handler for CancelledError (or is suppressed)."""
+    p = ctx.p
+    n = 0
+    for fi in p.functions.values():
+        cancelled = {}
+        for c in calls_in(fi.node):
+            if call_name(c) == "cancel" and not c.args and call_recv(c) is not None:
+                cancelled.setdefault(norm(call_recv(c)), c)
+        if not cancelled:
+            continue
+        par = parmap(fi)
+        for a in body_walk(fi.node):
+            if not isinstance(a, ast.Await):
+                continue
+            tgt = norm(a.value)
+            if tgt not in cancelled or cancelled[tgt].lineno > a.lineno:
+                continue
+            n += 1
+            ctx.analysed(fi)
+            caught = False
+            cur = a
+            while cur in par:
+                up = par[cur]
+                if isinstance(up, ast.Try) and cur in up.body:
+                    for h in up.handlers:
+                        names = {"BaseException"} if h.type is None else {norm(t).split(".")[-1] for t in (h.type.elts if isinstance(h.type, ast.Tuple) else [h.type])}
+                        if names & {"CancelledError", "BaseException"}:
+                            caught = True
+                if isinstance(up, (ast.With, ast.AsyncWith)) and any("suppress" in norm(i.context_expr) and "CancelledError" in norm(i.context_expr) for i in up.items):
+                    caught = True
+                cur = up
+            if caught:
+                ctx.ok("R12.9", where(fi), f"await {tgt} after {tgt}.cancel(): CancelledError handled")
+            else:
+                ctx.bad("R12.9", fi.module, fi.qual, f"{tgt}.cancel(); await {tgt}", f"`await {tgt}` re-raises the cancellation of the task this function has just cancelled and nothing catches it: the rest of {fi.name}() does not run (for the user server's shutdown: no mailbox is shut down, nothing is committed, the db is not closed)", a.lineno)
+    ctx.floor("R12.9", n, 5, "awaits of a task cancelled in the same function")
+
+
 def run(ctx):
     ctx.do(r12_5)
     ctx.do(r12_7)
@@ -598,6 +642,7 @@ def run(ctx):
     ctx.do(r12_4)
     ctx.do(r12_6)
     ctx.do(r12_8)
+    ctx.do(r12_9)
     from . import c11 as _c11
     ctx.do(_c11.r11_9)  # an upgraded row comes back paired with the messages it described
     from . import c13
